@@ -7,7 +7,7 @@ From Coq Require Import Reals Ascii String List Bool ZArith QArith.
 From Flocq Require Import Core.
 From SpdVerif Require Import Base.Rx Base.CfgNumOps Spec.ConfigSpec Gen.ConfigTables Spec.ConfigUnits Model.ConfigTypes Model.Config
   Model.NumInst Model.Regex Model.Names Gen.ConfigConv
-  Proofs.C16_names Proofs.C16_round Proofs.C16_roundtrip Proofs.C16_stable Proofs.C16_defaults Proofs.Regex Proofs.C16_disjoint Proofs.C16_sigfigs_b64 Gen.ConfigSites Gen.CfgSteps Proofs.CfgSteps_eq.
+  Proofs.C16_names Proofs.C16_round Proofs.C16_roundtrip Proofs.C16_stable Proofs.C16_defaults Proofs.Regex Proofs.C16_disjoint Proofs.C16_sigfigs_b64 Gen.ConfigSites Gen.CfgSteps Proofs.CfgSteps_eq Model.Cfg_Composed Proofs.Cfg_composed.
 Import ListNotations.
 Local Open Scope R_scope.
 
@@ -203,6 +203,26 @@ Theorem C16_auto_is_explicit : forall num (o : NumOps num) U K minpos rj (c : sp
   (forall f, idler_focus_cfg c = Param f -> s_zi s = explicit_focus o f).
 Proof. exact auto_is_explicit. Qed.
 
+(* COMPOSED with the generated / proved kernels of C03 / C04 (oracles_of_model: Model/Cfg_Composed.v): each "auto" field IS the
+   value those models compute on the setup built so far -- the crystal angle is C04's optimum_theta of the composed cost (and lies
+   in [0, pi/2]); an accepted automatic period is C04's optimum_poling_period (0 < |period| <= L); the automatic idler is C03's
+   optimum_idler of the final signal / pump / crystal / poling. *)
+Theorem C16_auto_is_explicit_composed : forall index_of snell_inv sd_theta sd_period U rj (c : spdc_cfg R) s nf,
+  try_as_spdc_steps R_ops U (oracles_of_model index_of snell_inv sd_theta sd_period) GA.opp_min_period rj c = Ok (s, nf) ->
+  (cc_theta_deg (c_crystal c) = Auto ->
+     exists e, o_snell_ext (oracles_of_model index_of snell_inv sd_theta sd_period) (s_signal s) (cfg_cs0 R_ops c) = Some e /\
+       cs_theta (s_crystal s) =
+         MA.optimum_theta (theta_cost_c index_of snell_inv (erase_theta R_ops (cfg_cs0 R_ops c)) e (s_signal s) (s_pump s)) MA.real_ops sd_theta /\
+       0 <= cs_theta (s_crystal s) <= PI / 2) /\
+  (forall a, c_pp c = PCConfig Auto a -> ~ In NFPeriodInfinite nf ->
+     exists v, MA.optimum_poling_period (dkz_c index_of (s_signal s) (s_pump s) (cfg_cs0 R_ops c)) MA.real_ops sd_period
+                 (cs_length (cfg_cs0 R_ops c)) = MA.AutoOk v /\
+               s_pp s = poling_new R_ops v (apod_of_cfg R_ops a) /\ 0 < Rabs v <= cs_length (cfg_cs0 R_ops c)) /\
+  (c_idler c = Auto -> beam_wf (s_signal s) -> 0 < b_wavelength (s_pump s) ->
+     exists i, MI.optimum_idler (index_of (s_crystal s)) (ipm (cs_pm (s_crystal s))) (cs_counter (s_crystal s))
+                 (ib (s_signal s)) (ipump (s_pump s)) (ipp (s_pp s)) = Some i /\ ib (s_idler s) = i).
+Proof. exact auto_is_explicit_composed. Qed.
+
 (* ================================================================================================ defaults *)
 Theorem C16_defaults :
   qlist_eqb default_numbers spec_default_numbers = true /\
@@ -249,5 +269,6 @@ Print Assumptions C16_sigfigs_b64_tie_partial.
 Print Assumptions C16_sigfigs_b64_away_from_ties_partial.
 Print Assumptions C16_stable.
 Print Assumptions C16_auto_is_explicit.
+Print Assumptions C16_auto_is_explicit_composed.
 Print Assumptions C16_defaults.
 Print Assumptions C16_omitted_threshold.
